@@ -1,6 +1,6 @@
 (* C03 — property theorems only.  Each is closed by `exact` of a lemma of C03_Proofs.v. *)
 From Coq Require Import List NArith ZArith Bool.
-From Dae Require Import C03_Spec C03_Model C03_Proofs C03_ParseProofs C03_BytesProofs C03_SeqProofs C03_HookProofs C03_FreshProofs C03_RecoverProofs C03_JanSpec C03_JanModel C03_JanProofs.
+From Dae Require Import C03_Spec C03_Model C03_Proofs C03_ParseProofs C03_BytesProofs C03_SeqProofs C03_HookProofs C03_FreshProofs C03_RecoverProofs C03_JanSpec C03_JanModel C03_JanProofs C03_RangeProofs.
 From Dae.gen Require Import C03_Consts C03_Layout C03_Janitor.
 Import ListNotations.
 Open Scope N_scope.
@@ -288,7 +288,7 @@ Print Assumptions C03_consuming_recover_refuted.
    difference of an int64 clock sample and the entry's last_seen converted to int64, compares it with `>`, and uses
    the documented timeouts (the same as the kernel's). *)
 Theorem C03_janitor_source_shape :
-  JAN_AGE_SIGNED = true /\ JAN_CMP_STRICT = true /\
+  JAN_AGE_SIGNED = true /\ JAN_CMP_STRICT = true /\ JAN_CLOSING_STATE = TCP_STATE_CLOSING /\
   JAN_UDP_NS = DOC_UDP_IDLE_NS /\ JAN_UDP_DNS_NS = DOC_UDP_DNS_IDLE_NS /\
   JAN_TCP_EST_NS = DOC_TCP_IDLE_NS /\ JAN_TCP_CLOSING_NS = DOC_TCP_CLOSING_NS /\
   JAN_UDP_NS = UDP_CONN_STATE_TIMEOUT_NS /\ JAN_TCP_EST_NS = TCP_CONN_STATE_ESTABLISHED_TIMEOUT_NS /\
@@ -301,7 +301,7 @@ Print Assumptions C03_janitor_source_shape.
 Theorem C03_janitor_selects_only_idle :
   forall sample k s,
     sample < TWO63 -> cs_last s < TWO63 ->
-    jan_code_selected false 0 sample k s = spec_jan_removes sample k (cs_state s =? 1) (cs_last s).
+    jan_code_selected false 0 sample k s = spec_jan_removes sample k (cs_state s =? TCP_STATE_CLOSING) (cs_last s).
 Proof. exact jan_selects_iff_idle_proof. Qed.
 Print Assumptions C03_janitor_selects_only_idle.
 
@@ -317,7 +317,7 @@ Print Assumptions C03_janitor_never_selects_refreshed.
    is selected). *)
 Definition C03_janitor_unsigned_selects_only_idle : Prop :=
   forall sample k s, sample < TWO63 -> cs_last s < TWO63 ->
-    jan_selected false true false 0 sample k s = spec_jan_removes sample k (cs_state s =? 1) (cs_last s).
+    jan_selected false true false 0 sample k s = spec_jan_removes sample k (cs_state s =? TCP_STATE_CLOSING) (cs_last s).
 Theorem C03_janitor_unsigned_refuted : ~ C03_janitor_unsigned_selects_only_idle.
 Proof. exact jan_unsigned_refuted_proof. Qed.
 Print Assumptions C03_janitor_unsigned_refuted.
@@ -332,6 +332,45 @@ Theorem C03_sticky_decision_with_janitor :
     dec_of (ks_conn (run_events P st evs)) k = Some d.
 Proof. exact sticky_history_proof. Qed.
 Print Assumptions C03_sticky_decision_with_janitor.
+
+(* Kernel-written state -> janitor timeout class: the state byte the hooks write when FIN/RST is seen is the one
+   the janitor's `value.State == n` treats as closing (10 s); the byte written for a new connection is not, and
+   packets without FIN/RST keep an entry out of the closing class. *)
+Theorem C03_janitor_state_classes :
+  (forall m k w a now s', fst (mark_tcp_seen m k w false true a now) = Some s' -> (cs_state s' =? JAN_CLOSING_STATE) = true) /\
+  (forall wan now a, (cs_state (new_state wan now a) =? JAN_CLOSING_STATE) = false) /\
+  (forall m k w a now s s', tab_get m k = Some s -> (cs_state s =? JAN_CLOSING_STATE) = false ->
+     fst (mark_tcp_seen m k w false false a now) = Some s' -> (cs_state s' =? JAN_CLOSING_STATE) = false).
+Proof. exact jan_state_classes_proof. Qed.
+Print Assumptions C03_janitor_state_classes.
+
+(* Every field a hook reads of a parsed frame fits its width (given that the frame's bytes are bytes): 16-byte
+   addresses, 16-bit ports, 8-bit protocol, 6-byte MAC, 6-bit DSCP; likewise for every route() query of the
+   specification and of the hook models. *)
+Theorem C03_parse_field_ranges :
+  forall eth proto pf lin f,
+    bytes_ok f ->
+    let p := classify (parse_transport eth proto pf lin f) in
+    k_sip (p_key p) < 2 ^ 128 /\ k_dip (p_key p) < 2 ^ 128 /\ k_sport (p_key p) < 65536 /\ k_dport (p_key p) < 65536 /\
+    k_proto (p_key p) < 256 /\ p_mac p < 2 ^ 48 /\ p_dscp p < 64.
+Proof. exact parse_field_ranges_proof. Qed.
+Print Assumptions C03_parse_field_ranges.
+
+Theorem C03_query_field_ranges :
+  forall eth proto pf lin f e wan,
+    bytes_ok f ->
+    let q := query e (classify (parse_transport eth proto pf lin f)) wan in
+    q_sip q < 2 ^ 128 /\ q_dip q < 2 ^ 128 /\ q_sport q < 65536 /\ q_dport q < 65536 /\ q_mac q < 2 ^ 48 /\ q_dscp q < 256.
+Proof. exact query_field_ranges_proof. Qed.
+Print Assumptions C03_query_field_ranges.
+
+Theorem C03_rquery_field_ranges :
+  forall eth proto pf lin f e wan pname ret pk,
+    bytes_ok f -> parse_packet (parse_transport eth proto pf lin f) = (ret, Some pk) ->
+    let q := rquery_of e pk wan pname in
+    q_sip q < 2 ^ 128 /\ q_dip q < 2 ^ 128 /\ q_sport q < 65536 /\ q_dport q < 65536 /\ q_mac q < 2 ^ 48 /\ q_dscp q < 256.
+Proof. exact rquery_of_field_ranges_proof. Qed.
+Print Assumptions C03_rquery_field_ranges.
 
 (* Non-vacuity: an established proxied TCP flow in the table; its ACK packet is redirected with the record,
    and a WAN-originated reply flow (entry without decision) passes. *)
